@@ -5,27 +5,43 @@ import (
 	"strings"
 )
 
+// declaresName reports whether line, ignoring surrounding whitespace, starts with keyword followed by name as a
+// whole identifier (so that "type user2" is not taken for a declaration of "user").
+func declaresName(line, keyword, name string) bool {
+	rest, found := strings.CutPrefix(strings.TrimSpace(line), keyword+" "+name)
+	if !found {
+		return false
+	}
+
+	return rest == "" || !isIdentifierChar(rest[0])
+}
+
+func isIdentifierChar(char byte) bool {
+	return char == '_' || char == '-' || char == '.' || char == '/' ||
+		(char >= 'a' && char <= 'z') || (char >= 'A' && char <= 'Z') || (char >= '0' && char <= '9')
+}
+
 func GetConditionLineNumber(conditionName string, lines []string) int {
 	return slices.IndexFunc(lines, func(line string) bool {
-		return strings.HasPrefix(strings.TrimSpace(line), "condition "+conditionName)
+		return declaresName(line, "condition", conditionName)
 	})
 }
 
 func GetTypeLineNumber(typeName string, lines []string) int {
 	return slices.IndexFunc(lines, func(line string) bool {
-		return strings.HasPrefix(strings.TrimSpace(line), "type "+typeName)
+		return declaresName(line, "type", typeName)
 	})
 }
 
 func GetExtendedTypeLineNumber(typeName string, lines []string) int {
 	return slices.IndexFunc(lines, func(line string) bool {
-		return strings.HasPrefix(strings.TrimSpace(line), "extend type "+typeName)
+		return declaresName(line, "extend type", typeName)
 	})
 }
 
 func GetRelationLineNumber(relation string, lines []string) int {
 	return slices.IndexFunc(lines, func(line string) bool {
-		return strings.HasPrefix(strings.TrimSpace(line), "define "+relation)
+		return declaresName(line, "define", relation)
 	})
 }
 
